@@ -16,7 +16,7 @@ from typing import Any, Dict, List, Optional, Tuple
 import numpy as np
 
 from mc import choices, qsim, simctl, world
-from mc.report import add_sample, add_violation, count, new_part
+from mc.report import add_sample, add_violation, count, new_part, over_budget
 
 LEVEL = "exploration"
 RULE = ("host-program ASTs over {gate on a persistent qubit, fresh-qubit measure into new future / array slot (constant or loop "
@@ -418,6 +418,8 @@ class Real:
 # =============================================================================== comparison of one (program, flush set, init)
 def run_case(prog, flushes, init, part, case_extra=None, config="generic") -> None:
     """flushes: set of gap indices g (flush after top-level statement g, 0-based; the final flush is always there)."""
+    if over_budget(part):
+        return
     case = {"program": prog, "flush_after": sorted(flushes), "init": init}
     if config != "generic":
         case["config"] = config
